@@ -162,7 +162,7 @@ pub fn bases(tier: &Tier) -> Vec<Base> {
     }
     // a real block with golden ticket, fee, rebroadcast transactions
     if let Ok(mut ps) = super::c01::positions(tier) {
-        let w = ps.remove(3).w;
+        let w = ps.remove(ps.iter().position(|x| x.name == "wrapped-g3-fees").expect("position wrapped-g3-fees")).w;
         for bi in [w.blocks.len() - 1, w.blocks.len() - 2] {
             let b = w.blocks[bi].bytes.clone();
             let mut fields = vec![(0, 4)];
